@@ -324,4 +324,3 @@ End NPF.
 Theorem parser_never_panics autovars switches env_errors fc cli_font cli_maxlen ts :
   parse_program autovars switches env_errors (parse_format fc cli_font cli_maxlen env_errors) ts <> Panic.
 Proof. apply parse_program_never_panics. apply parse_format_never_panics. Qed.
-Print Assumptions parser_never_panics.
